@@ -466,6 +466,7 @@ func c03Idents(c *core.Ctx) {
 }
 
 func c03Run(c *core.Ctx) {
+	processWarmup(c)
 	c03Shared(c)
 	c03Idents(c)
 	c03Trivia(c)
